@@ -69,6 +69,25 @@ Theorem scalar_where_relation_rejected : forall f args named i,
 Proof. exact ScopeProofs.scalar_where_relation_rejected. Qed.
 Print Assumptions scalar_where_relation_rejected.
 
+(* a `let` constant or a parameter value named where a relation is required is a scalar argument: rejected.
+   (Columns and input aliases are not in scope in a relation position -- this/that are shadowed there -- so a column
+   name in `join b ...` denotes the database table b.) *)
+Theorem constant_where_relation_rejected : forall sc n f args named i k,
+  lookup (shadowed sc) ([], n) = [CRoot NValue] \/ lookup (shadowed sc) ([], n) = [CParam NValue] ->
+  rel_arg_kind sc ([], n) = Some k ->
+  nth_error (fs_params f) i = Some PRel -> nth_error args i = Some k ->
+  length args = length (fs_params f) ->
+  exists e, apply_fn f args named = AErr e.
+Proof. exact ScopeProofs.constant_where_relation_rejected. Qed.
+Print Assumptions constant_where_relation_rejected.
+
+(* the same name known to both operands of a join is ambiguous INSIDE the join condition too (this and that in scope) *)
+Theorem column_of_this_and_that_is_ambiguous : forall root x y n d d' par std,
+  In n (in_cols x) -> In n (in_cols y) ->
+  resolve (mkScope root (mkFrame [x] d) (Some (mkFrame [y] d')) par std) ([], n) = RErr EAmbiguous.
+Proof. exact this_and_that_ambiguous. Qed.
+Print Assumptions column_of_this_and_that_is_ambiguous.
+
 (* the std transforms the property is about exist and take the relation they transform as a relation-typed parameter *)
 Definition transform_names : list str :=
   [ [102;114;111;109] (* from *); [115;101;108;101;99;116] (* select *); [102;105;108;116;101;114] (* filter *);
@@ -145,6 +164,20 @@ Proof. vm_compute. reflexivity. Qed.
 
 Example c10_ex_join_named :
   match sig_of [[106;111;105;110]] with Some s => apply_fn s [ARel; AScalar; ARel] [[122;122]] | None => Applied end = AErr EUnknownNamed.
+Proof. vm_compute. reflexivity. Qed.
+
+(* `let n = 5` then `join n (==id)`: n is the constant, not a database table *)
+Example c10_ex_let_constant_as_relation :
+  let sc := mkScope [([110], NValue)] (mkFrame [mkInput [97] [[99]] true] []) None [] std_names in
+  rel_arg_kind sc ([], [110]) = Some AScalar
+  /\ rel_arg_kind sc ([], [99]) = Some ARel      (* a column name in relation position is a database table *)
+  /\ match sig_of [[106;111;105;110]] with Some s => apply_fn s [AScalar; AScalar; ARel] [] | None => Applied end = AErr ENotARelation
+  /\ rel_arg_kind sc ([], [98]) = Some ARel.
+Proof. vm_compute. auto. Qed.
+
+(* `take 2 expr:1`: expr is the name of take's positional parameter, not a named parameter *)
+Example c10_ex_positional_name_as_named :
+  match sig_of [[116;97;107;101]] with Some s => apply_fn s [AScalar; ARel] [[101;120;112;114]] | None => Applied end = AErr EUnknownNamed.
 Proof. vm_compute. reflexivity. Qed.
 
 Example c10_ex_join_ok :
